@@ -16,6 +16,10 @@ Lf(i) == TrLeaf(<<"e", CASE i = 1 -> "1" [] i = 2 -> "2" [] i = 3 -> "3" [] i = 
 
 Pattern(bits) == [i \in 1..Len(bits) |-> IF bits[i] THEN Lf(i) ELSE TrNil]
 Patterns == UNION {{Pattern(b) : b \in [1..n -> BOOLEAN]} : n \in 0..MaxLen}
+\* three sorts of slot: a value, nil, and a TYPED nil pointer (an element like any other: not a gap)
+TNilLeaf == TrLeafT("tnil", <<"~">>)
+Pattern3(ks) == [i \in 1..Len(ks) |-> IF ks[i] = "v" THEN Lf(i) ELSE IF ks[i] = "n" THEN TrNil ELSE TNilLeaf]
+Patterns3 == UNION {{Pattern3(b) : b \in [1..n -> {"v", "n", "t"}]} : n \in 0..MaxLen}
 
 IdxOpts == {<<FALSE, FALSE>>, <<TRUE, FALSE>>, <<FALSE, TRUE>>, <<TRUE, TRUE>>}
 PStack(es, o) == [TrStk("AND", es) EXCEPT !.neg = o[1], !.fwd = o[2]]
@@ -37,9 +41,14 @@ Deep    == {TrStk("OR", <<TrCnd(<<"k">>, "Eq", TrStk("AND", <<PStack(es, <<FALSE
       \cup {TrStk("LIST", <<TrStk("AND", <<Lf(11), PStack(es, <<FALSE, FALSE>>)>>), Lf(12)>>) : es \in Patterns}
       \cup {TrStk("LIST", <<TrStk("AND", <<TrCnd(<<"k">>, "Eq", PStack(es, <<FALSE, FALSE>>)), TrStk("OR", <<Lf(11)>>)>>), Lf(12)>>) : es \in Patterns}
 
-Trees == CASE FAMILY = "top" -> Top [] FAMILY = "instack" -> InStack [] FAMILY = "incond" -> InCond [] FAMILY = "alias" -> InAlias [] FAMILY = "deep" -> Deep
+\* typed nil pointers among the elements: top level, nested, in a Condition
+TNil == {PStack(es, <<FALSE, FALSE>>) : es \in Patterns3}
+   \cup {TrStk("LIST", <<PStack(es, <<FALSE, FALSE>>), Lf(12), TrCnd(<<"k">>, "Eq", PStack(es, <<FALSE, FALSE>>))>>) : es \in Patterns3}
+
+Trees == CASE FAMILY = "preerr" -> Top [] FAMILY = "tnil" -> TNil [] FAMILY = "top" -> Top [] FAMILY = "instack" -> InStack [] FAMILY = "incond" -> InCond [] FAMILY = "alias" -> InAlias [] FAMILY = "deep" -> Deep
 
 VARIABLES cs, lim
+Pre == FAMILY = "preerr"          \* an error is recorded on the root (SetErr) before the call
 Init == cs \in Trees /\ lim \in Limits /\ DfInDomain(cs, lim)
 Next == UNCHANGED <<cs, lim>>
 Spec == Init /\ [][Next]_<<cs, lim>>
@@ -55,7 +64,7 @@ Laws == LET r == DefragSpec(cs, lim) IN
         /\ Len(r.e) = Cardinality({i \in 1..Len(cs.e) : cs.e[i].t # "nil"})
 
 Emit == OUT = "" \/
-        Serialize(ToJson([in |-> cs, arg |-> lim, exp |-> DfResult(DefragSpec(cs, lim), "none"),
-                          alt |-> DfResult(DefragAsBuilt(cs, lim), DfErrAsBuilt(cs, lim))]) \o "\n",
+        Serialize(ToJson([in |-> cs, arg |-> IF Pre THEN lim + 1000 ELSE lim, exp |-> DfResult(DefragSpec(cs, lim), DfErrSpec(cs, Pre)),
+                          alt |-> DfResult(DefragAsBuilt(cs, lim), DfErrAsBuilt(cs, lim, Pre))]) \o "\n",
                   OUT, [format |-> "TXT", charset |-> "UTF-8", openOptions |-> <<"WRITE", "CREATE", "APPEND">>]).exitValue = 0
 =============================================================================
